@@ -93,7 +93,7 @@ pub fn exp_c05(e: &mut Exp) {
 // ---------------------------------------------------------------------------------------------
 // C03: HyperLogLog relative error over independent hash streams
 pub fn exp_c03(e: &mut Exp) {
-    let bs: Vec<usize> = if e.scale > 1 { (4..=16).collect() } else { vec![4, 6, 9, 11] };
+    let bs: Vec<usize> = if e.scale > 1 { (4..=16).collect() } else { vec![4, 6, 9, 11, 14] };
     let seeds: u64 = if e.scale > 1 { 400 } else { 160 };
     for b in bs {
         let m = 1u64 << b;
@@ -325,7 +325,13 @@ pub fn exp_c07(e: &mut Exp) {
         }
     }
     // false-positive frequency
-    for &(n, p) in &[(50usize, 0.1f64), (50, 0.01), (400, 0.05), (2000, 0.02), (2000, 0.3)] {
+    let fp_grid: &[(usize, f64)] = if e.scale > 1 {
+        &[(50, 0.1), (50, 0.01), (400, 0.05), (2000, 0.02), (2000, 0.3), (2000, 1e-3), (1000, 1e-4)]
+    } else {
+        &[(50, 0.1), (50, 0.01), (400, 0.05), (2000, 0.02), (2000, 0.3)]
+    };
+    for &(n, p) in fp_grid {
+        let probes = if p < 1e-2 { probes * 20 } else { probes };
         let mut fp_bloom = 0u64;
         let mut fp_c4 = 0u64;
         let mut fp_c8 = 0u64;
@@ -425,7 +431,7 @@ pub fn exp_c08(e: &mut Exp) {
     let grid: &[(f64, f64)] = if e.scale > 1 {
         &[(0.1, 0.5), (0.05, 0.1), (0.02, 0.01), (0.2, 0.9), (0.01, 0.3), (0.3, 0.05), (0.005, 0.2)]
     } else {
-        &[(0.1, 0.5), (0.05, 0.1), (0.2, 0.9), (0.02, 0.01)]
+        &[(0.1, 0.5), (0.05, 0.1), (0.2, 0.9), (0.02, 0.01), (0.025, 0.1), (0.09, 0.05), (0.03, 0.05)]
     };
     for &(eps, delta) in grid {
         for shape in 0..3 {
@@ -493,6 +499,54 @@ pub fn exp_c08(e: &mut Exp) {
             if frac > lim {
                 e.fails.push(format!("cms(eps={}, delta={}) shape {}: overestimate exceeds eps*N for a fraction {:.4} of (seed, element) pairs > delta (+margin: {:.4})", eps, delta, shape, frac, lim));
             }
+        }
+    }
+}
+
+
+/// C08, known finding: enhanced double hashing reaches only w^2 of the w^d column tuples (two
+/// elements that agree in h1 mod w and h2 mod w collide in every row), so the fraction of bad
+/// pairs has a floor of about eps/e^2 that no number of rows removes; for delta below that floor
+/// `with_point_query_properties(eps, delta)` misses its guarantee. Probed at fixed grid points so
+/// that the finding is identified by its inputs.
+pub fn exp_c08_floor(e: &mut Exp) {
+    let seeds: u64 = if e.scale > 1 { 3000 } else { 600 };
+    for &(eps, delta) in &[(0.25f64, 0.001f64), (0.1, 0.001), (0.05, 0.001), (0.02, 0.001), (0.01, 0.0001)] {
+        let mut bad = 0u64;
+        let mut pairs = 0u64;
+        for s in 0..seeds {
+            let mut c = CountMinSketch::<u64, u64, BuildHasherSeeded>::with_point_query_properties_and_hasher(eps, delta, BuildHasherSeeded::new((e.rng.next() % 1_000_000) as usize + s as usize));
+            let n_total: u64 = 1_000_000;
+            let hw = (eps * n_total as f64).floor() as u64 + 1;
+            let nheavy = n_total / hw;
+            let mut truth: Vec<(u64, u64)> = vec![];
+            for i in 0..nheavy {
+                c.add_n(&(1000 + i), &hw);
+                truth.push((1000 + i, hw));
+            }
+            let rest = n_total - nheavy * hw;
+            let nlight = 200u64;
+            for i in 0..nlight {
+                let wl = rest / nlight;
+                if wl > 0 {
+                    c.add_n(&i, &wl);
+                    truth.push((i, wl));
+                }
+            }
+            let total: u64 = truth.iter().map(|t| t.1).sum();
+            for (k, t) in &truth {
+                if (c.query_point(k) - t) as f64 > eps * total as f64 {
+                    bad += 1;
+                }
+                pairs += 1;
+            }
+            e.evals += 1;
+        }
+        let frac = bad as f64 / pairs as f64;
+        let lim = delta + 5.5 * (delta * (1.0 - delta) / seeds as f64).sqrt() + 1.0 / seeds as f64;
+        e.statmax("c08.floor_frac_over_delta_x100", (frac / delta * 100.0) as u64);
+        if frac > lim {
+            e.fails.push(format!("cms double-hashing floor (eps={}, delta={}): overestimate exceeds eps*N for a fraction {:.5} of (seed, element) pairs > delta (+margin: {:.5})", eps, delta, frac, lim));
         }
     }
 }
